@@ -133,7 +133,7 @@ CHECKS = {
         ],
     },
     "C08": {
-        "level": "model_based_exploration",
+        "level": "exploration",
         "manifest": {
             "technique": "differential property testing (rapid): every request's response under N-way concurrency against its response when its client runs alone on a fresh server; provider atomicity and isolation oracles; the same histories under the race detector",
             "level_text": "White-box through the real request path (parseSource -> setupRoutes -> createHandler, default mode and --interpret): one module made of generated pure routes (the harness's typed program generator, with user functions) plus fixed route families that reach the shared state the property names: a recursive function (evaluation-depth budget), generic functions called with int and string arguments (generic type scope), CRUD and read-modify-locally routes on the mock database, per-client and shared Redis counters, a record every client reads and renames. 2-10 clients each run 1-8 requests (and create/get/put/get/delete/get and create/get/preview/get scripts) on disjoint keys. Oracle: each client first runs alone on a fresh server; then all clients run at once on one long-lived server and every response (status and JSON body) must equal the alone response; reads of the shared record must be well-formed and carry a name some request wrote; concurrent redis.incr results on one key must be pairwise distinct and the final counter must equal the number of increments; alone, a get after requests that only changed a local copy of the fetched record must return what the get before returned. A handler panic, a request that does not finish, process death (attributed through the journal) and any race-detector report are violations.",
@@ -147,7 +147,7 @@ CHECKS = {
         ],
     },
     "C09": {
-        "level": "model_based_exploration",
+        "level": "exploration",
         "manifest": {
             "technique": "property-based testing (rapid): generated async/await programs run repeatedly and concurrently in both execution modes against the value their sequential reading gives; model-based testing of the Future API and its All/Race/Any combinators with a harness-owned settle schedule; all under the race detector as well",
             "level_text": "Programs: a route declares two base variables, spawns 1-4 async blocks drawn from templates (straight-line, if/else with returns, while loop, for loop, nested async+await, object result, loops and branches with a nested block, division by zero), each followed by 0-4 parent statements that keep declaring and assigning the parent's own variables (including loops) while the blocks run, then awaits the blocks in a generated order, possibly several times each, possibly not at all. The expected response is computed in Go from the template parameters. Each case runs 4-15 times in sequence and 18 more times from 6 concurrent requests, through the real request path in the default (compiled) mode or --interpret; every response must equal the expected one (or be a 5xx when an awaited block raises), no handler may panic, nothing may block, and the goroutine count returns to its start-up value. Futures: 1-5 futures, 0-3 awaiters each (awaiting twice), a combinator (All, Race, Any or none) created before or after some futures are settled, and steps that resolve/reject/cancel a future with 1-3 calls, sequentially (first wins) or from goroutines at once (any one of them wins, and never changes); after each step the model states each future's outcome (including the cancellations All and Race perform) and whether the combinator must be pending or settled with which value. Process death and race-detector reports are violations.",
@@ -238,7 +238,7 @@ CHECKS = {
         ],
     },
     "C15": {
-        "level": "model_based_exploration",
+        "level": "exploration",
         "manifest": {
             "technique": "model-based stateful property testing (rapid) of JIT call histories with a differential oracle against fresh OptNone compilation, plus concurrent histories under the race detector",
             "level_text": "Each case holds one or two route names with up to three successive, independently generated definitions each (the harness's typed program generator, in the AST forms the optimizer rewrites), a hot-path threshold in {0,1,2,4,10} and a recompile window in {0,-1ns,1h}, and a history of up to 24 calls: CompileRoute, CompileRouteWithTypes (8 type maps, more than the 5-per-route limit), RecordExecution bursts around the threshold, RecordDeoptimization, CheckAdaptiveRecompilation, GetUnit, InvalidateCache, ClearCache, SetHotPathThreshold, SetRecompileWindow, and redefinition (the caller invalidates the name or clears the cache and from then on passes the new definition). Every bytecode the JIT returns or holds (CompileRoute, CompileRouteWithTypes, GetUnit) is executed on the VM for 1-3 variable bindings and must give the result of a fresh OptNone compilation of the name's current definition; a difference that equals an earlier definition's behaviour is reported as stale code. The concurrent unit runs 2-6 goroutines of such calls (no redefinition) on one JITCompiler under -race with the same oracle per call and at quiescence; any race-detector report is a violation.",
@@ -252,7 +252,7 @@ CHECKS = {
         ],
     },
     "C16": {
-        "level": "model_based_exploration",
+        "level": "exploration",
         "manifest": {
             "technique": "model-based stateful property testing (rapid) of hub/connection histories against a reference model at every quiescent point, plus concurrent histories under the race detector with delivery and invariant oracles",
             "level_text": "White-box (test files overlaid into pkg/websocket, no source change): a real Hub runs its loop; up to 6 Connections over real gorilla sockets, 1-3 rooms, MaxConnectionsPerHub in {0,2,3,4,100}, MaxConnectionsPerRoom in {0..3}, queue size in {1,2,3,8}, drop_oldest/drop_newest (block in the concurrent unit). Histories of up to 30 operations: connect (hub.register), disconnect (through the unregister channel as ReadPump does, or Connection.Close), operations from outside goroutines (JoinRoom, LeaveRoom, Send, Hub.Broadcast, Hub.BroadcastToRoom, RoomManager.BroadcastToRoom, also on already disconnected connections), messages whose handler runs inside the hub loop and performs join/leave/send/broadcast/room broadcast/close through the VMHandler adapter exactly as a compiled GlyphLang handler does, on-connect and on-disconnect handlers doing the same, and drains of a connection's queue. After every operation the hub is brought to quiescence (barrier event through the loop, all hub channels empty) and compared with the model: registration, each live connection's GetRooms against Room.Has in every room and against the model, room sizes and hub size against the limits, no unregistered connection in any room, and each drained queue equal to the model's queue (message by message, including the backpressure strategy). A hub-loop panic, a panic in a caller, or a barrier that does not return within 10 s (deadlock) are violations. Concurrent unit: 2-6 goroutines issue such operations simultaneously while a drainer plays the WritePumps and a monitor samples the limits; afterwards the same quiescent invariants, no duplicate delivery, direct messages only to their addressee, room messages only to connections that join that room somewhere in the history; every race-detector report is a violation. Storm unit: 3-8 registered connections run short join/leave scripts on rooms of capacity 1-3 simultaneously from a start barrier, 150 rounds per case (schedule exploration by repetition); after every round no room is over capacity and every connection's IsInRoom agrees with Room.Has.",
